@@ -125,7 +125,7 @@ Proof. intros maxl f e H. unfold ensure_home. rewrite H. reflexivity. Qed.
 (* an existing directory (also through a symlink) is left alone: the whole
    filesystem is unchanged by this entry *)
 Lemma ensure_home_existing_dir : forall maxl f e n,
-  stat maxl f (path_of (ue_home e)) = FOk n -> is_dir n = true -> ensure_home maxl f e = FOk f.
+  stat maxl f (home_path (ue_home e)) = FOk n -> is_dir n = true -> ensure_home maxl f e = FOk f.
 Proof.
   intros maxl f e n Hs Hd. unfold ensure_home.
   destruct (String.eqb (ue_home e) no_home); [reflexivity|]. rewrite Hs, Hd. reflexivity.
@@ -133,7 +133,7 @@ Qed.
 (* an existing non-directory is an error *)
 Lemma ensure_home_non_directory : forall maxl f e n,
   ue_home e <> no_home ->
-  stat maxl f (path_of (ue_home e)) = FOk n -> is_dir n = false -> ensure_home maxl f e = FErr.
+  stat maxl f (home_path (ue_home e)) = FOk n -> is_dir n = false -> ensure_home maxl f e = FErr.
 Proof.
   intros maxl f e n Hn Hs Hd. unfold ensure_home.
   destruct (String.eqb_spec (ue_home e) no_home); [contradiction|]. rewrite Hs, Hd. reflexivity.
@@ -141,8 +141,8 @@ Qed.
 (* a missing home: parents with 0755, Mkdir with 0700, Chown to the entry *)
 Lemma ensure_home_missing : forall maxl f e f',
   ue_home e <> no_home ->
-  stat maxl f (path_of (ue_home e)) = FNotExist -> ensure_home maxl f e = FOk f' ->
-  let h := path_of (ue_home e) in
+  stat maxl f (home_path (ue_home e)) = FNotExist -> ensure_home maxl f e = FOk f' ->
+  let h := home_path (ue_home e) in
   exists f1 f2, mkdirall maxl f (pdir h) home_parent_perm = FOk f1 /\
                 mkdir maxl f1 h home_perm = FOk f2 /\
                 chown maxl f2 h (ue_uid e) (ue_gid e) = FOk f'.
@@ -167,13 +167,14 @@ Lemma home_created_example :
       = Some (mkSinfo KDir spec_parent_mode 0 0).
 Proof. eexists. split; [vm_compute; reflexivity|]. split; vm_compute; reflexivity. Qed.
 
-Lemma home_trailing_slash_refuted :
+(* the replay of the former finding C13-F3 (fixed by 82f3aa3): a missing home
+   declared as "/srv/ts/" is now the 0700 directory itself *)
+Lemma home_trailing_slash_fixed :
   exists e f', ue_home e = "/srv/ts/" /\ ensure_home 40 tree_with_etc e = FOk f' /\
     stat 40 tree_with_etc (path_of (ue_home e)) = FNotExist /\
-    option_map sinfo_of (match stat 40 f' (path_of (ue_home e)) with FOk n => Some n | _ => None end)
-      = Some (mkSinfo KDir spec_parent_mode (ue_uid e) (ue_gid e)) /\
     home_realised_b (ue_uid e) (ue_gid e) None
-      (option_map sinfo_of (match stat 40 f' (path_of (ue_home e)) with FOk n => Some n | _ => None end)) = false.
+      (option_map sinfo_of (match stat 40 f' (path_of (ue_home e)) with FOk n => Some n | _ => None end)) = true /\
+    stat 40 f' (path_of "/srv/ts/ts") = FNotExist.
 Proof.
   exists (mkUE "ts" "x" 5 6 "" "/srv/ts/" "/bin/sh"). eexists.
   split; [reflexivity|]. split; [vm_compute; reflexivity|]. repeat split; vm_compute; reflexivity.
